@@ -20,6 +20,7 @@ file-system call at all.
 """
 import os
 import random
+import re
 import sys
 import urllib.parse
 
@@ -190,8 +191,22 @@ def gen(seed, index, tier):
         if proto.PROTOCOLS[p][1] in ("http", "wap") and rng.random() < 0.4:
             # request headers a shortcut in front of the handlers might look at
             rq["hdr"] = rng.randrange(len(HTTP_HEADERS))
+        if rng.random() < 0.2 and rq["shape"]["token"] and rq["shape"]["placement"] != "absolute":
+            # the same request from several clients at once (the filter's answer for one connection must not
+            # come from what another worker is doing with the same or the previous selector)
+            rq["burst"] = rng.choice([2, 2, 3])
         reqs.append(rq)
-    return {"requests": reqs, "handlers": rng.choice(["default", "full", "full"]),
+    pre = rng.choice([0.0, 0.0, 0.0, 0.05, 0.2])
+    if pre:
+        # runs with line-level pre-emption: shorter, with more bursts, so that there is something to interleave.
+        # Only requests that try to climb out come in bursts: their answer is not-found whatever the schedule,
+        # so that races between workers that serve real objects (C14's subject) cannot show up here.
+        reqs = reqs[:30]
+        for rq in reqs:
+            if "burst" not in rq and rq["shape"]["token"] and rq["shape"]["placement"] != "absolute" \
+                    and rng.random() < 0.5:
+                rq["burst"] = rng.choice([2, 2, 3])
+    return {"requests": reqs, "handlers": rng.choice(["default", "full", "full"]), "preempt_p": pre,
             # (never a directory outside the scratch tree: a defect that creates files relative to the
             #  working directory must not litter the machine)
             "cwds": rng.sample(["outside", "root", "rootX", "S"], 2),
@@ -423,14 +438,16 @@ def _serve_world(sc, S, root, cwd_name, tape, secret="A"):
     here = os.path.dirname(os.path.dirname(os.path.abspath(__file__)))
     allowed = [sys.prefix, sys.base_prefix, harness.REPO, here, "/verif", "/usr/share/zoneinfo", "/dev/null",
                "/usr/lib", "/lib", "/bin/zcat", "/usr/bin/zcat", "/etc/localtime", "/proc/self"]
-    tp = Tape(sc["sched_seed"], replay=tape)
+    # both worlds draw their schedule from the scenario's seed alone (a replay is a pure function of the scenario)
+    tp = Tape(sc["sched_seed"])
     # the configuration file lives outside the root as well: what it says beyond the options that shape
     # responses (a private section, key file paths, the pid file) is part of the outside world
     conf = {("backend", "dbpassword"): "OUTSIDE-ONLY-%s" % secret,
             ("pygopherd", "tls_keyfile"): "/etc/ssl/private/%s-key.pem" % secret,
             ("pygopherd", "pidfile"): "/var/run/%s/pygopherd.pid" % secret}
     run = harness.SimRun(root, tp, sc["sched_seed"], servertype=sc["servertype"], tls=True,
-                         handlers=sc["handlers"], fsroot=S, conf=conf)
+                         handlers=sc["handlers"], fsroot=S, conf=conf, preempt_p=sc.get("preempt_p", 0.0),
+                         trace_hot=bool(sc.get("preempt_p")))
     resps = []
     logs = []
     bad = []
@@ -457,6 +474,7 @@ def _serve_world(sc, S, root, cwd_name, tape, secret="A"):
                     run.fs.faults.append(flt)
                 try:
                     c = run.client(data, tls=tls)
+                    twins = [run.client(data, tls=tls) for _ in range(rq.get("burst", 1) - 1)]
                     run.go()
                 finally:
                     _hook_on[0] = False
@@ -470,7 +488,17 @@ def _serve_world(sc, S, root, cwd_name, tape, secret="A"):
                     # spelled the path itself may get it echoed back
                     bad.append((rq, "response", repr(bytes(c.s2c)[:160]), "reveals the absolute path of the root"))
                 resps.append(bytes(c.s2c).replace(S.encode(), b"<S>"))
+                if twins:
+                    # every client of the burst is part of the comparison between the two worlds (whether
+                    # simultaneous clients get the SAME answer is C14's question, not this property's)
+                    counters["burst_of_equal_requests"] = counters.get("burst_of_equal_requests", 0) + 1
+                    resps[-1] = b"\x00|twin|\x00".join([resps[-1]] + [bytes(t.s2c).replace(S.encode(), b"<S>")
+                                                                     for t in twins])
                 logs.append([l.replace(S, "<S>") for l in run.log[nlog:]])
+                if twins:
+                    # which of the simultaneous workers logs first is the scheduler's choice, and the two worlds
+                    # need not be scheduled alike; client ports differ only between the twins
+                    logs[-1] = sorted(re.sub(r"^10\.0\.0\.\d+ ", "10.0.0.N ", l) for l in logs[-1])
                 ops = run.fs.oplog[nops:]
                 evs = list(_events)
                 per_req_fs.append(len(ops) + len(evs))
@@ -559,12 +587,16 @@ def execute(sc, tape=None):
                 counters["url_selector"] = counters.get("url_selector", 0) + 1
             elif _has_token(ns):
                 p = "http" if rq["proto"] == "head" else rq["proto"]
-                nf = proto.is_not_found(p, ra[i])
-                if not nf and proto.PROTOCOLS[p][1] == "http":
+                def nf_one(part):
+                    if proto.is_not_found(p, part):
+                        return True
+                    if proto.PROTOCOLS[p][1] != "http":
+                        return False
                     # the request's headers made the WAP protocol answer: its not-found is a WML deck under
                     # 'HTTP/1.0 200 Not Found'
-                    head = ra[i].partition(b"\r\n\r\n")[0]
-                    nf = b"vnd.wap.wml" in head and head.split(b"\r\n", 1)[0].endswith(b" Not Found")
+                    head = part.partition(b"\r\n\r\n")[0]
+                    return b"vnd.wap.wml" in head and head.split(b"\r\n", 1)[0].endswith(b" Not Found")
+                nf = all(nf_one(part) for part in ra[i].split(b"\x00|twin|\x00"))
                 if not nf:
                     viol = {"oracle": "climbing-selector-not-found",
                             "signature": dict(sig, oracle="climbing-selector-not-found"),
@@ -594,3 +626,6 @@ def shrink(sc):
             yield dict(sc, requests=cand)
     if sc["servertype"] != "ThreadingTCPServer":
         yield dict(sc, servertype="ThreadingTCPServer")
+    for i, rq in enumerate(sc["requests"]):
+        if rq.get("burst", 1) > 2:
+            yield dict(sc, requests=sc["requests"][:i] + [dict(rq, burst=2)] + sc["requests"][i + 1:])
